@@ -79,8 +79,7 @@ ArithInt(op, l, r) ==
       tg == l.trig \cup r.trig
   IN
   CASE op = "Add" -> Norm(TInt(w), l.v + r.v, det, FALSE, tg)
-    [] op = "Sub" -> Norm(TInt(w), l.v - r.v, det, FALSE,
-                          tg \cup (IF wl < wr THEN {"sub-narrow-left"} ELSE {}))
+    [] op = "Sub" -> Norm(TInt(w), l.v - r.v, det, FALSE, tg)
     [] op = "Mult" ->
          IF l.v > 46340 \/ r.v > 46340 \/ l.v < -46340 \/ r.v < -46340 THEN Unmod("mult-overflows-tlc-int")
          ELSE Norm(TInt(MulSize(2 * w)), l.v * r.v, det, FALSE, tg)
@@ -140,9 +139,6 @@ BinOpV(op, l, r) ==
             ELSE IF l.det < INF \/ l.v < 0 THEN Ok(l.t, 0, 0, FALSE, tg)
             ELSE Ok(l.t, l.v \div P2(r.v), INF, FALSE, tg)
        ELSE IF op = "Pow" THEN Unmod("pow-not-rewritten")
-       ELSE IF op = "Mult" /\ ((l.lit /\ l.v % 2 = 0) \/ (r.lit /\ r.v % 2 = 0))
-            THEN LET x == ArithInt(op, l, r) IN
-                 IF Bad(x) THEN x ELSE [x EXCEPT !.trig = @ \cup {"mul-even-const"}]
        ELSE ArithInt(op, l, r)
   ELSE IF l.t.t = "fixed" /\ r.t.t = "fixed" THEN ArithFixed(op, l, r)
   ELSE IF op = "Mult" /\ l.t.t = "fixed" /\ IsIntLike(r.t) /\ r.lit THEN
@@ -178,9 +174,7 @@ CompareV(op, l, r) ==
                 d == IF \A j \in 1..Len(a) : a[j].det = INF /\ b[j].det = INF THEN INF ELSE 0
             IN Ok(TBool, IF op = "Eq" THEN same ELSE ~same, d, FALSE, tg)
   ELSE IF IsIntLike(l.t) /\ IsIntLike(r.t) THEN
-       Ok(TBool, CmpHolds(op, l.v, r.v), det, l.lit /\ r.lit,
-          tg \cup (IF op \in {"Lt", "LtE", "Gt", "GtE"} /\ l.t.w < r.t.w /\ ~(l.lit /\ r.lit)
-                   THEN {"cmp-narrow-left"} ELSE {}))
+       Ok(TBool, CmpHolds(op, l.v, r.v), det, l.lit /\ r.lit, tg)
   ELSE IF l.t.t = "fixed" /\ r.t.t = "fixed" THEN
        IF SameLayout(l.t, r.t) THEN Ok(TBool, CmpHolds(op, l.v, r.v), det, FALSE, tg)
        ELSE Unmod("qfixed-mixed-layout")
@@ -228,6 +222,7 @@ ConstV(c) ==    \* a Constant node's payload
     [] c.T = "int" -> LitInt(c.v, {})
     [] c.T = "str" -> IF "code" \in DOMAIN c THEN Ok([t |-> "char", w |-> 8], c.code, INF, TRUE, {}) ELSE Unmod("str-constant")
     [] c.T = "float" -> IF "num" \in DOMAIN c THEN FloatLit(c.num, c.den) ELSE Unmod("float-constant")
+    [] c.T = "node" -> Unmod("constant-holding-an-ast-node")
     [] OTHER -> Unmod("constant-kind")
 
 TupleV(vals) ==
